@@ -102,6 +102,11 @@ where
 }
 
 fn single_ty(long: bool, log: u8, a: &[u8], b: &[u8], dirty: &(u8, Vec<u8>, Vec<u8>)) -> Result<(), String> {
+    // a panic escaping from the library through any call below is a violation of this case, not a crash
+    guard_case(|| single_ty_unguarded(long, log, a, b, dirty))
+}
+
+fn single_ty_unguarded(long: bool, log: u8, a: &[u8], b: &[u8], dirty: &(u8, Vec<u8>, Vec<u8>)) -> Result<(), String> {
     if long {
         single::<LongDualFuzzyHash>(log, a, b, dirty).map(|_| ())
     } else {
@@ -125,11 +130,21 @@ fn pair<D: Dual>(x: &(u8, Vec<u8>, Vec<u8>), y: &(u8, Vec<u8>, Vec<u8>)) -> Resu
     if raw_eq && hash_stream(&dx) != hash_stream(&dy) {
         return Err("equal dual hashes with different Hash output".into());
     }
+    // "hash as equal if and only if the raw hashes are equal": different raw hashes must not feed the very same
+    // bytes to the hasher (that would be a collision for EVERY hasher, not a chance one)
+    if !raw_eq && hash_stream(&dx) == hash_stream(&dy) {
+        return Err("different dual hashes feed identical bytes to the Hasher (they hash as equal under every hasher)".into());
+    }
     let _ = rx != ry;
     Ok(raw_eq)
 }
 
 fn pair_ty(long: bool, x: &(u8, Vec<u8>, Vec<u8>), y: &(u8, Vec<u8>, Vec<u8>)) -> Result<bool, String> {
+    // a panic escaping from the library through any call below is a violation of this case, not a crash
+    guard_case(|| pair_ty_unguarded(long, x, y))
+}
+
+fn pair_ty_unguarded(long: bool, x: &(u8, Vec<u8>, Vec<u8>), y: &(u8, Vec<u8>, Vec<u8>)) -> Result<bool, String> {
     if long {
         pair::<LongDualFuzzyHash>(x, y)
     } else {
@@ -186,6 +201,24 @@ fn pair_corpus(cap2: usize) -> Vec<(u8, Vec<u8>, Vec<u8>)> {
         }
         for l in 58..=64usize {
             v.push((log, vec![0u8; l], vec![]));
+        }
+        // the same run position in both block hashes, the removed characters split differently between them
+        for e1 in 0..=5usize {
+            for e2 in 0..=5usize {
+                let mut a = vec![1u8, 1, 1];
+                a.extend(vec![2u8; 3 + e1]);
+                let mut b = vec![3u8, 3, 3];
+                b.extend(vec![4u8; 3 + e2]);
+                v.push((log, a.clone(), b.clone()));
+                // and two long runs in each
+                if e1 <= 2 && e2 <= 2 {
+                    let mut a2 = vec![1u8; 4 + e1];
+                    a2.extend(vec![2u8; 4 + e2]);
+                    let mut b2 = vec![3u8; 4 + e2];
+                    b2.extend(vec![4u8; 4 + e1]);
+                    v.push((log, a2, b2));
+                }
+            }
         }
     }
     v.sort();
@@ -267,7 +300,7 @@ pub fn run(ctx: &Ctx) -> Report {
     rep.set("exhaustive", true);
     rep.set(
         "rule",
-        "every raw hash of HASH (both capacities; every run length at every position i.e. 0..16 RLE symbols, several runs, runs ending at the capacity) is turned into a dual hash through six routes (from_raw_form, init_from_raw_form into each of two dirty objects, new_from_internals_near_raw, new_from_internals, str::parse, from_bytes); all must be valid, ==, hash and order as equal, render identically, decompress (to_raw_form, into_mut_raw_form into a dirty destination, text) to exactly the raw hash and expose its reference normalization; normalize_in_place gives the dual of the normalized hash.  All pairs of a corpus of groups sharing a normalized part: a == b <=> raw equal.  Cases distinct by construction.",
+        "every raw hash of HASH (both capacities; every run length at every position i.e. 0..16 RLE symbols, several runs, runs ending at the capacity) is turned into a dual hash through six routes (from_raw_form, init_from_raw_form into each of two dirty objects, new_from_internals_near_raw, new_from_internals, str::parse, from_bytes); all must be valid, ==, hash and order as equal, render identically, decompress (to_raw_form, into_mut_raw_form into a dirty destination, text) to exactly the raw hash and expose its reference normalization; normalize_in_place gives the dual of the normalized hash.  All pairs of a corpus of groups sharing a normalized part (incl. groups whose removed characters are split differently between the two block hashes at the same run position): a == b <=> raw equal <=> equal ordering <=> the same bytes fed to the Hasher.  Cases distinct by construction.",
     );
     rep
 }
